@@ -144,6 +144,9 @@ func configuredFaults(p *plan.Plan) []string {
 	if len(p.Schedule.Stalls) > 0 {
 		out = append(out, "clock:stall")
 	}
+	if p.Schedule.YieldCostNs > 0 {
+		out = append(out, "clock:cpu-time-charged")
+	}
 	if p.Sink != "" && p.Sink != "null" {
 		out = append(out, "sink:"+p.Sink)
 	}
@@ -477,7 +480,7 @@ func dimensions(p *plan.Plan) []string {
 	} else if nops > 1 {
 		d = append(d, "history")
 	}
-	if len(p.Schedule.Stalls) > 0 {
+	if len(p.Schedule.Stalls) > 0 || p.Schedule.YieldCostNs > 0 {
 		d = append(d, "clock")
 	}
 	if len(p.Schedule.Gaps) > 0 && len(p.Tasks) <= 1 {
@@ -628,6 +631,13 @@ func (c *Check) minimise(v *Violation, budget time.Duration) (*plan.Plan, *Viola
 			return false
 		}
 		q.Schedule.Stalls = nil
+		return true
+	})
+	try(func(q *plan.Plan) bool {
+		if q.Schedule.YieldCostNs == 0 {
+			return false
+		}
+		q.Schedule.YieldCostNs = 0
 		return true
 	})
 	try(func(q *plan.Plan) bool {
